@@ -78,7 +78,19 @@ def build():
     # width of the per-transfer record counter
     rps = impl_body(src, r"pub\(super\)\s+struct\s+RecordProcessor")
     m = one(r"rr_count\s*:\s*(usize|u64|u32|u16|u8|u128)\s*,", rps, "RecordProcessor.rr_count type")
-    bits = {"usize": 64, "u64": 64, "u128": 128, "u32": 32, "u16": 16, "u8": 8}[m.group(1)]
+    # usize is as wide as the target's pointers: read from the compiler, not assumed
+    import subprocess
+    try:
+        cfg = subprocess.run(["rustc", "--print", "cfg"], stdout=subprocess.PIPE, stderr=subprocess.STDOUT, timeout=60).stdout.decode()
+    except Exception as e:
+        raise GenError("rustc --print cfg failed: %s" % e)
+    mw = re.search(r'target_pointer_width="(\d+)"', cfg)
+    if not mw:
+        raise GenError("rustc --print cfg does not report target_pointer_width")
+    ptr = int(mw.group(1))
+    defs.append(("target_pointer_width", "N", "%d%%N" % ptr))
+    bits = {"usize": ptr, "u64": 64, "u128": 128, "u32": 32, "u16": 16, "u8": 8}[m.group(1)]
+    defs.append(("rr_count_is_usize", "bool", "true" if m.group(1) == "usize" else "false"))
     defs.append(("rr_count_bits", "N", "%d%%N" % bits))
     acc = fn_body(src, "rr_count", after="impl RecordProcessor")
     one(r"^\s*self\.rr_count\s*$", acc, "rr_count accessor returns the counter unconverted")
